@@ -56,9 +56,13 @@ where
       let out_ptr = self.out.as_ptr() as *mut naMatrix<T, R1, C1, S1>;
       let mut current = *self.from.as_ptr();
       let step = *self.step.as_ptr();
-      for i in 0..(*out_ptr).len() {
+      let len = (*out_ptr).len();
+      for i in 0..len {
         (&mut (*out_ptr))[i] = current;
-        current = current + step;
+        // do not step past the last element: it may be the largest value of the kind
+        if i + 1 < len {
+          current = current + step;
+        }
       }
     }
   }
